@@ -171,11 +171,34 @@ fn action_name(a: rspirv::binary::ParseAction) -> String {
 
 /// One `consume_instruction` step of the real loader from a constructed state.
 pub fn loader_step(fopen: bool, bopen: bool, opcode: u32) -> String {
+    loader_step_closed(fopen, bopen, opcode, false)
+}
+
+/// `closed`: the open function already holds one closed block (label + OpReturn). The answer then reports `closed_block_grew`
+/// when that finished block received something.
+pub fn loader_step_closed(fopen: bool, bopen: bool, opcode: u32, closed: bool) -> String {
     use rspirv::binary::Consumer;
     let op = match spirv::Op::from_u32(opcode) {
         Some(o) => o,
         None => return "{\"error\": \"undeclared opcode\"}".to_string(),
     };
+    if closed && fopen {
+        let mut f = dr::Function::new();
+        let mut blk = dr::Block::new();
+        blk.label = Some(dr::Instruction::new(spirv::Op::Label, None, Some(1), vec![]));
+        blk.instructions.push(dr::Instruction::new(spirv::Op::Return, None, None, vec![]));
+        f.blocks.push(blk);
+        let b0 = if bopen { Some(dr::Block::new()) } else { None };
+        let mut l = dr::Loader::verif_from_parts(dr::Module::new(), Some(f), b0);
+        let a = l.consume_instruction(dr::Instruction::new(op, None, Some(7777), vec![]));
+        let ans = action_name(a);
+        let (m, f, b) = l.verif_parts();
+        let grew = f.as_ref().map_or(false, |f| f.blocks.first().map_or(false, |b| b.instructions.len() != 1 || b.label.as_ref().and_then(|l| l.result_id) != Some(1)));
+        let globals = m.types_global_values.len() + m.capabilities.len() + m.extensions.len() + m.ext_inst_imports.len() + m.entry_points.len() + m.execution_modes.len()
+            + m.debug_string_source.len() + m.debug_names.len() + m.debug_module_processed.len() + m.annotations.len();
+        return format!("{{\"answer\": {}, \"closed_block_grew\": {}, \"globals\": {}, \"f\": {}, \"b\": {}, \"blocks\": {}}}", crate::ops::jstr(&ans), grew, globals,
+            f.is_some(), b.is_some(), f.as_ref().map_or(0, |f| f.blocks.len()));
+    }
     let f0 = if fopen { Some(dr::Function::new()) } else { None };
     let b0 = if bopen { Some(dr::Block::new()) } else { None };
     let mut l = dr::Loader::verif_from_parts(dr::Module::new(), f0, b0);
